@@ -240,6 +240,31 @@ def judge(models, opts, code_override=None):
         a.close()
 
 
+def judge_module(code, fw, samples, opts):
+    """the same oracle on a module text alone (CLI output): no registry is consulted; original keys come from the
+    module's own alias / metadata entries"""
+    from .. import driver, mme, oracle
+    try:
+        mod = mme.load(code)
+    except mme.LoadError as e:
+        return "outside", [], {}, f"CLI output does not load ({e}); C03/C19 report it"
+    try:
+        tab = mme.table(mod, fw)
+        roots = [i for i in tab.values() if i.name == "Root"]
+        if len(roots) != 1:
+            return "outside", [], {}, "no unique Root class in CLI output"
+        orc = oracle.Oracle(tab, oracle.FirstMatch([driver.STR_CLASSES[n] for n in opts["registry"]]), fw, {})
+        errs = orc.acceptance([(roots[0].cls, samples)])
+        if errs:
+            return "outside", [], {"blocked_by_c01": 1}, "C01 acceptance failed on the CLI output (reported there)"
+        do = DictOracle(opts, orc)
+        do.run([(roots[0].cls, samples)])
+        wit = [{"property": PROP, "mechanism": k, "msg": f"{w}: {m}"[:600]} for k, w, m in do.errs[:6]]
+        return ("violated" if wit else "held"), wit, {"mapping_objects": do.n_map, "model_objects": do.n_model, "positions": len(do.pos)}, None
+    finally:
+        mme.unload(mod)
+
+
 def run_case(case):
     models = [(n, s) for n, s in case["models"]]
     opts = case["opts"]
@@ -270,7 +295,7 @@ def cli_cases(v, seed_, n):
     try:
         for i in range(n):
             rng = rng_for(PROP, "cli", seed_, i)
-            fw = rng.choice(["base", "dataclasses", "pydantic"])
+            fw = rng.choice(["attrs", "dataclasses", "pydantic"])
             if i % 2:
                 pat, objs = rng.choice(ANCHOR_SENSITIVE)
                 pats = [pat]
@@ -293,6 +318,8 @@ def cli_cases(v, seed_, n):
             with open(os.path.join(d, "in.json"), "w") as f:
                 json.dump(samples, f)
             argv = ["-m", "Root", "in.json", "-f", fw, "--merge", "exact", "--max-strings-literals", "10"]
+            if fw in ("attrs", "dataclasses"):
+                argv += ["--code-generator-kwargs", "meta=true"]
             if pats:
                 argv += ["--dkr"] + pats
             if dkf:
@@ -312,8 +339,8 @@ def cli_cases(v, seed_, n):
                 continue
             opts = {"framework": fw, "flat": True, "merge": [["exact"]], "max_literals": 10, "convert_unicode": True,
                     "registry": ["IntString", "FloatString", "BooleanString"], "dkf": dkf, "dkr": pats, "post_init_converters": False, "meta": False}
-            st, wit, cnt, why = judge([("Root", samples)], opts, code_override=r.stdout)
-            cnt = dict(cnt, cli_runs=1, cli_anchor_sensitive=i % 2)
+            st, wit, cnt, why = judge_module(r.stdout, fw, samples, opts)
+            cnt = dict(cnt, cli_runs=1, cli_anchor_sensitive=i % 2, cli_judged=int(st in ("held", "violated")))
             v.add(case, {"status": st, "witnesses": wit, "counters": cnt, "why": why, "digest": digest(case),
                          "nontrivial": cnt.get("mapping_objects", 0) >= 1 and cnt.get("model_objects", 0) > len(samples)},
                   sample_view={"argv": argv, "samples": samples[:2]})
@@ -337,4 +364,4 @@ def main():
     for c, r in zip(cases, results):
         v.add(c, r, sample_view={"samples": c["models"][0][1][:2], "dkf": c["opts"]["dkf"], "dkr": c["opts"]["dkr"]})
     cli_cases(v, seed(), 120 if tier() == "quick" else 1500)
-    return v.finish(floor_nontrivial=100, monitors_required=("mapping_objects", "model_objects", "positions", "cli_runs", "cli_anchor_sensitive"))
+    return v.finish(floor_nontrivial=100, monitors_required=("mapping_objects", "model_objects", "positions", "cli_runs", "cli_anchor_sensitive", "cli_judged"))
